@@ -1011,6 +1011,13 @@ func (g *Gen) genQuery(s *snapshot) []string {
 	case 4:
 		return []string{fmt.Sprintf("qauction %d", id)}
 	case 5:
+		if g.chance(0.8) {
+			for _, a := range s.aucs { // an auction that has bids, if any
+				if len(s.bids[a.id]) > 0 && (len(s.bids[id]) == 0 || g.chance(0.3)) {
+					id = a.id
+				}
+			}
+		}
 		bid := uint64(g.between(1, 3))
 		if n := len(s.bids[id]); n > 0 && g.chance(0.8) {
 			bid = s.bids[id][g.intn(n)].id
@@ -1018,6 +1025,13 @@ func (g *Gen) genQuery(s *snapshot) []string {
 			bid = 99
 		}
 		return []string{fmt.Sprintf("qbid %d %d", id, bid)}
+	}
+	if g.chance(0.8) {
+		for _, a := range s.aucs { // an auction that has allow-listed bidders, if any
+			if len(s.allowed[a.id]) > 0 && (len(s.allowed[id]) == 0 || g.chance(0.3)) {
+				id = a.id
+			}
+		}
 	}
 	b := someBidder()
 	if g.chance(0.05) {
